@@ -312,6 +312,8 @@ def trace_props(op, why):
         return {"C11", "C12", "C03"}
     if n == "disjoint":
         return {"C13", "C18"} if op.get("unchecked") else {"C13"}
+    if n in ("eq_other", "s_eq_other"):
+        return {"C14"}
     if n in ("eq_clone", "s_eq_clone"):
         return {"C14", "C15"}
     if n == "s_algebra":
@@ -603,7 +605,7 @@ def jobs_for(pid, tier):
         "C19": both("fmt", ["fmt", "cursor"]) + core + setcore + pairs("alg", ["algebra"], "set", qcaps[:2] if q else tcaps[:6])
                + ([J("fmt-n3", ["fmt"], consts={"Caps": [3], "Vers": [0], "Vals": [0]}), J("setfmt-n3", ["fmt"], mode="set", consts={"Caps": [3], "Vers": [0]})] if q else []),
         "C08": pairs("alg", ["algebra"], "set", qcaps if q else tcaps) + tset + tbigset + [j for j in micro_bin if j["mode"] == "set"],
-        "C14": tbigset + micro_bin
+        "C14": tbigset + micro_bin + tmap + tset + (tbig if not q else [])
                + [dict(tag="eq4-%s" % md, spec="pair", family=["eq"], mode=md,
                        consts=({"CapA": 4, "CapB": 4, "Classes": [0, 1, 2, 3, 4], "Vals": [0]} if md == "set" or q
                                else {"CapA": 4, "CapB": 4, "Classes": [0, 1, 2, 3], "Vals": [0, 1]})) for md in ("set", "map")]
